@@ -58,3 +58,10 @@ Definition EXN_OTHER := 4.
 Definition hexdigit (n : Z) : Z := if n <? 10 then 48 + n else 87 + n.
 Fixpoint hexstr (l : bytes) : list Z :=
   match l with [] => [] | b :: r => hexdigit (b / 16) :: hexdigit (b mod 16) :: hexstr r end.
+
+(* comparison operators found at the limit checks of the C++ (generated into Gen/Sites.v) *)
+Inductive cmpop := CGt | CGe | CLt | CLe | CEq | CNe.
+Definition cmp_eval (o : cmpop) (a b : Z) : bool :=
+  match o with
+  | CGt => b <? a | CGe => b <=? a | CLt => a <? b | CLe => a <=? b | CEq => a =? b | CNe => negb (a =? b)
+  end.
